@@ -346,7 +346,14 @@ def chunkings(rng, hist, n_random):
             if rng.random() < 0.5:
                 # a refused public call while the read task is parked between two reads
                 nreads = len(cuts) + 1
-                act = rng.choice(["connect", "send-unencodable", "send-app", "send-test-req", "clock+3", "clock+29.5", "clock+29.5"])
+                # accepted calls whose effect on the session depends on WHERE in the stream they happen (send_test_req
+                # leaves a TestRequest outstanding) are not drawn at random positions: the comparison across chunkings
+                # would then compare different histories; they appear only in the designated last chunking below
+                act = rng.choice(["connect", "send-unencodable", "clock+3"])     # the probing tick (clock+29.5) only in the designated chunking
+                if d.get("jfault"):
+                    # a connection with an injected inbound-journal fault gets refused calls only: fault x other-task
+                    # combinations are outside the property's quantifier and outside what the oracle models
+                    act = rng.choice(["connect", "send-unencodable"])
                 if act == "clock+29.5":
                     act, probed = ("clock+3" if probed else act), True
                 cs.append({"cuts": cuts, "calls": {str(rng.randrange(1, nreads)) if nreads > 1 else "0": [act]}})
@@ -356,7 +363,8 @@ def chunkings(rng, hist, n_random):
     # … exactly where a read ends inside the last frame: a refused call / the heartbeat task probing the quiet line
     out.append([{"cuts": cuts_of(c), "calls": {str(len(cuts_of(c))): ["connect"]}} for c in out[3]])
     probe_day = rng.randrange(len(days))
-    out.append([{"cuts": cuts_of(c), "calls": {str(len(cuts_of(c))): ["clock+29.5" if k == probe_day else rng.choice(["clock+3", "send-app"])]}}
+    out.append([{"cuts": cuts_of(c), "calls": {str(len(cuts_of(c))): ["connect" if days[k].get("jfault") else
+                                                                      "clock+29.5" if k == probe_day else "clock+3"]}}
                 for k, c in enumerate(out[3])])
     return out
 
